@@ -440,6 +440,15 @@ func TestC13History(t *testing.T) {
 		// sources that are rejected after regex groups have been numbered
 		srcs = append(srcs, rapid.SampledFrom([]string{"find all @/(a)(b/", "find all @/(x)(y)/ find all (", "find all @/((a)b)c/ find all @/(/"}).Draw(t, "badsrc"))
 		bad := len(srcs) - 1
+		// the case in flight, for the watchdog: a call that never returns (a lock left
+		// held after a rejected compile) is replayed in isolation by the driver
+		history := []string{}
+		SetInflight(func() string {
+			h := append([]string{fmt.Sprintf("compile(%d)", len(srcs)-1)}, history...)
+			h = append(h, "compile(0)")
+			return jsonStr(Failure{Property: "C13", Kind: "history", Case: map[string]any{"sources": srcs, "texts": texts, "history": h}})
+		})
+		defer ClearInflight()
 		// expectations are taken right after a successful compile (clean global state)
 		CompileSafe("find all 'a'")
 		fresh := map[string][]MatchRec{}
@@ -486,7 +495,6 @@ func TestC13History(t *testing.T) {
 			si int
 		}
 		var progs []prog
-		history := []string{}
 		runsOf := map[int]int{}
 		interleaved := false
 		sawBad := false
